@@ -6,7 +6,7 @@
 From Coq Require Import List ZArith NArith QArith String Ascii Bool Permutation.
 From Qryn Require Import lib.Strs model.Sql model.Logql model.LogqlRegexp model.LogqlPlan model.SqlEval model.LogqlSem model.LogqlSemCheck
   proofs.SqlEvalProofs proofs.LogqlSemProofs proofs.LogqlSemCheckProofs proofs.LogqlRegexpProofs proofs.LogqlSem2Base proofs.LogqlSem2Proofs
-  model.LogqlSemZone proofs.LogqlSemZoneProofs.
+  model.LogqlSemZone proofs.LogqlSemZoneProofs proofs.LogqlSemReexecProofs.
 (* RG : ReGroups is the extraction oracle of the regexp stage (model/SqlEval.v); it is an implicit (type class) argument of
    the evaluator and of the reference semantics, universally quantified in every theorem below that names it; a statement
    that does not name it is about the default instance no_groups (no regexp stage can be evaluated). *)
@@ -443,3 +443,35 @@ Example zone_day_witness :
   from_day (c_from_ns z_ctx) = 19792%Z /\ local_from_day 32400 (c_from_ns z_ctx) = 19793%Z
   /\ local_from_day (-18000) (c_from_ns z_ctx) = 19792%Z.
 Proof. exact z_days. Qed.
+
+(* ---------- round 7: a plan object processed again with another window (seeded change C07-g) ----------
+   QueryRangeService.Tail transpiles once and calls Process on the one plan object every second, each time with a context
+   of its own. In the model a planner is a value and process builds the statement from the context it is handed: the
+   statement of a later call is log_select q c2 and the theorems above apply to it (the check's re-execution mode processes
+   the REAL plan object two or three times and judges the last statement against the last window). The seeded
+   LabelFilterPlanner answers every later call with the select of its first call: reuse_correct is log_correct2 with the
+   statement planned for c1 read for the window c2; reuse_stmt = logql_log_partial_parsers word for word for it (contexts
+   that differ in the window only, db_ok for both). Refuted by the demonstration of the seed, a row of corpus/C07/sem.jsonl. *)
+Theorem reused_first_statement_refuted : ~ reuse_stmt.
+Proof. exact reused_first_statement_refuted_proof. Qed.
+Print Assumptions reused_first_statement_refuted.
+
+(* with the window it was planned for, the statement is the one of logql_log_partial_parsers *)
+Theorem reuse_same_window_is_log_correct2 :
+  forall (RG : ReGroups) re_match parse_float json_get hash_labels (tie : forall A : Type, list A -> list A) q c d,
+    reuse_correct re_match parse_float json_get hash_labels tie q c c d <-> log_correct2 re_match parse_float json_get hash_labels tie q c d.
+Proof. intros. apply reuse_same_window. Qed.
+Print Assumptions reuse_same_window_is_log_correct2.
+
+(* the hypotheses of reuse_stmt are met by the witness ({app="shop"} | drop pod | app="shop", windows [t0, t0+10s) and
+   [t0+10s, t0+20s), lines at t0+1s, +4s, +11s); each call's own statement returns the lines of its own window; the first
+   call's statement read for the second window returns lines 1 and 2 where the reference has line 3 *)
+Example reused_statement_witness :
+  (in_fragment2 r_query = true /\ oracle_ok no_re no_float r_query /\ ctx_ok r_c1 = true /\ ctx_ok r_c2 = true
+   /\ same_but_window r_c1 r_c2 /\ db_ok r_c1 r_db /\ db_ok r_c2 r_db /\ width_guard r_query = true /\ absent_guard no_re r_query r_db)
+  /\ (exists sel, log_select r_query r_c2 = Some sel
+        /\ option_map (map row_out) (eval no_re no_float no_json no_hash tie_id (to_sqldb r_c2 r_db) sel) = Some [Some (r_out 11 "n=3")])
+  /\ (exists sel, log_select r_query r_c1 = Some sel
+        /\ option_map (map row_out) (eval no_re no_float no_json no_hash tie_id (to_sqldb r_c2 r_db) sel) = Some [Some (r_out 1 "n=1"); Some (r_out 4 "n=2")]
+        /\ log_rows2 no_re no_float no_json no_hash r_query r_c2 r_db = [r_out 11 "n=3"]).
+Proof. split; [exact r_guards|]. split; [exact (proj2 r_own_answers)|exact r_stale_answer]. Qed.
